@@ -250,6 +250,23 @@ def gen_cases(rng, tier):
     return cases
 
 
+def _wcase(entry, full, ic, tau='1', gamma='1'):
+    return {'entry': entry, 'full': full, 'labelkind': 'str', 'nodes': ['a', 'b', 'c'], 'edges': [[0, 1], [1, 2]], 'ic': ic,
+            'tau': tau, 'gamma': gamma, 'p': '1/2', 'grid': [0, 5, 11], 'nodelist': None}
+
+
+# witnesses of the `_refuted` theorems of Props/C06.v (graph path3 = a - b - c), replayed on the code on every run
+WITNESSES = [
+    ('accepts_SIR_homogeneous_meanfield_from_graph_refuted', _wcase('SIR_homogeneous_meanfield_from_graph', False, {'mode': 'rho', 'rho': '1/4'}), 'accept:TypeError'),
+    ('row0_SIR_heterogeneous_meanfield_from_graph_full_refuted', _wcase('SIR_heterogeneous_meanfield_from_graph', True, {'mode': 'sets', 'I': [0], 'R': None}), 'layout'),
+    ('row0_SIR_compact_pairwise_from_graph_full_refuted', _wcase('SIR_compact_pairwise_from_graph', True, {'mode': 'sets', 'I': [0], 'R': None}), 'row0:SS'),
+    ('row0_SIS_super_compact_pairwise_from_graph_II_refuted', _wcase('SIS_super_compact_pairwise_from_graph', True, {'mode': 'rho', 'rho': '1/4'}), 'row0:II'),
+    ('row0_SIR_effective_degree_from_graph_refuted', _wcase('SIR_effective_degree_from_graph', False, {'mode': 'sets', 'I': [0], 'R': [2]}), 'row0:S'),
+    ('accepts_SIS_heterogeneous_pairwise_from_graph_full_refuted', _wcase('SIS_heterogeneous_pairwise_from_graph', True, {'mode': 'sets', 'I': [0], 'R': None}), 'accept:NameError'),
+    ('row0_SIR_heterogeneous_pairwise_from_graph_full_refuted', _wcase('SIR_heterogeneous_pairwise_from_graph', True, {'mode': 'sets', 'I': [0], 'R': None}), 'row0:SkSl'),
+]
+
+
 def known_keys():
     return [f['key'] for f in C.known_findings().get('findings', []) if f.get('property') == 'C06']
 
@@ -258,13 +275,20 @@ def run(run, tier):
     EoN = C.import_eon()
     rng = run.rng
     t0 = time.time()
-    props = {'theorems': [], 'axioms': {}, 'ok': True}
-    if os.path.exists(os.path.join(C.COQ, 'Props', 'C06.v')):
-        props = C.check_props('C06')
-        if not props['ok']:
-            run.violation('C06/proof', 'Props/C06.v no longer checks: %s' % props['log'][-400:], {'broken': 'coq/Props/C06.v', 'log': props['log']}, no_input=True)
+    # the conservation theorems are about the right-hand sides GENERATED from the source: regenerate, fail closed
+    regen = 'ok'
+    try:
+        from . import rhs_lib
+        rhs_lib.regen_rhs()
+    except Exception as ex:
+        regen = 'translator refused: %s' % str(ex)[-300:]
+        run.violation('C06/rhs-translation', 'translate/rhs2v.py refuses the current analytic.py (%s); the conserve_ theorems over Gen/Rhs.v are not re-established; '
+                      'conservation is still checked numerically on every entry point below' % regen, {'broken': 'translate/rhs2v.py', 'log': regen}, no_input=True)
+    props = C.check_props('C06')
+    proof_broken = not props['ok']
     t1 = time.time()
-    cases = C.load_corpus('C06') + gen_cases(rng, tier)
+    wit = [dict(w[1]) for w in WITNESSES]
+    cases = wit + C.load_corpus('C06') + gen_cases(rng, tier)
     kk = known_keys()
     stats = {}; samples = []; nviol = 0; distinct = set()
     per_entry = {}
@@ -289,6 +313,17 @@ def run(run, tier):
                 seen[key] = (size, what, case, clause, obs)
         if not vio and len(samples) < 5 and case['full'] and obs:
             samples.append({'case': case, 'row0': short(obs)})
+    # the witnesses of the _refuted theorems must still misbehave on the code in the way the theorem says
+    wrep = {}
+    for (thm, wc, clause), (case, o, res, vio, obs) in zip(WITNESSES, results[:len(WITNESSES)]):
+        wrep[thm] = any(cl == clause for cl, _ in vio)
+        if not wrep[thm]:
+            run.violation('C06/witness/%s' % thm, 'the witness of theorem %s no longer shows %s on the implementation: the model (Model/Wrappers.v) is behind the code; '
+                          'update the model and replace the _refuted theorem by the positive one' % (thm, clause),
+                          {'case': wc, 'clause': clause, 'broken': 'Props/C06.v ' + thm}, no_input=True)
+    if proof_broken:
+        run.violation('C06/proof', 'Props/C06.v no longer checks (%s): %s; the oracle below found %d violating cases' % (props.get('failed_at'), props['log'][-300:], nviol),
+                      {'broken': 'coq/Props/C06.v', 'log': props['log']}, no_input=True)
     for key, (size, what, case, clause, obs) in seen.items():
         run.violation(key, what + ' [%s]' % ', '.join(qualifiers(case, OC.Oracle(case, OC.ENTRIES[case['entry']].sir))),
                       {'case': case, 'clause': clause, 'observed_row0': short(obs) if obs else None})
@@ -302,7 +337,7 @@ def run(run, tier):
                      'of the cases), tau and gamma from dyadic sets incl. 0, rho dyadic / default 1/N / explicit initial sets (>=1 infected node, >=1 susceptible node with an edge) '
                      'with initial_recovereds absent, empty or non-empty, 3 time grids.  Non-trivial = the implementation returned a result.  Curve checks of the '
                      'homogeneous pairwise models are limited to requests inside the closure\'s domain (rho, or a regular graph).' % len(OC.ENTRIES),
-                     samples, {'distribution': stats, 'per_entry': per_entry, 'oracle_violations': nviol, 'distinct_violation_keys': len(seen),
+                     samples, {'distribution': stats, 'per_entry': per_entry, 'oracle_violations': nviol, 'distinct_violation_keys': len(seen), 'refutation_witnesses_confirmed_on_code': wrep, 'rhs_regeneration': regen,
                                'correspondence': corr, 'wall_coq_s': round(t1 - t0, 1), 'wall_impl_s': round(t2 - t1, 1)})
     run.assumptions += ['scipy.integrate.odeint / ode return the initial value as first row and the solution to tolerance',
                         'curve checks use tolerances 1e-6*N (sum) and 1e-5*N (bounds, monotonicity); row 0 relative 1e-9']
